@@ -376,15 +376,10 @@ func (b *ReadOnly) AllKeysChan(ctx context.Context) (<-chan cid.Cid, error) {
 	if err != nil {
 		return nil, err
 	}
-	header, err := carv1.ReadHeader(rdr, b.opts.MaxAllowedHeaderSize)
+	_, headerSize, err := carv1.ReadHeaderAndSize(rdr, b.opts.MaxAllowedHeaderSize)
 	if err != nil {
 		b.mu.RUnlock() // don't hold the mutex forever
 		return nil, fmt.Errorf("error reading car header: %w", err)
-	}
-	headerSize, err := carv1.HeaderSize(header)
-	if err != nil {
-		b.mu.RUnlock() // don't hold the mutex forever
-		return nil, err
 	}
 
 	// TODO: document this choice of 5, or use simpler buffering like 0 or 1.
